@@ -244,9 +244,11 @@ package codec
 //@ import json "encoding/json"
 //@ func (*decoder).decodeScalar
 //@   assert at SetGoValue#0 stored: arg0 == token && token != nil && !typeis(token, json.Delim)
+//@   assert at return#1 onlynull: token == nil
 //@   assert at return#4 delimiter: result0 != nil
 //@ func (*decoder).decodeEnum
 //@   assert at SetFromString#0 stored: typeis(token, string) && arg0 == as(string, token)
+//@   assert at return#1 onlynull: token == nil
 //@   assert at return#4 wrongtype: result0 != nil && !typeis(token, string)
 
 // the scan for the next character that needs escaping stays inside the string (ASSUMED: its loop ranges
